@@ -74,16 +74,18 @@ try:
 finally:
     sh("git -C /repo worktree remove --force %s" % wt)
     shutil.rmtree(wt, ignore_errors=True)
-# checker run against /repo with the patch applied
-st = sh("git -C /repo status --porcelain")
-if st.stdout.strip():
-    print("refusing: /repo is dirty"); sys.exit(2)
+# checker run against a scratch copy of /repo's working tree with the patch applied
+# (same as `git -C /repo apply; mocverif; git -C /repo checkout -- .`, without touching /repo,
+# so that several evaluations and other experiments can run side by side)
 ev = "/tmp/evalseed_ev_" + name
+cp = "/tmp/evalseed_cp_" + name
 try:
-    a = sh("git -C /repo apply %s/patch.diff" % dst)
-    c = sh("/verif/bin/mocverif -property all -evidence %s" % ev)
+    shutil.rmtree(cp, ignore_errors=True)
+    sh("rsync -a --exclude .git /repo/ %s/" % cp)
+    a = sh("patch -p1 -s -d %s -i %s/patch.diff" % (cp, dst))
+    c = sh("/verif/bin/mocverif -repo %s -property all -no-selftest -evidence %s" % (cp, ev))
 finally:
-    sh("git -C /repo checkout -- .")
+    shutil.rmtree(cp, ignore_errors=True)
     shutil.rmtree(ev, ignore_errors=True)
 fired, props = [], []
 for line in c.stdout.splitlines():
@@ -96,7 +98,7 @@ res["checker_properties_failing"] = sorted(set(props))
 res["checker_detects_on_target_property"] = prop in props
 res["checker_reports"] = sorted(set(fired))[:12]
 meta.update({"property": prop, "confirmation": res,
-             "what_was_run": ["git apply --check + git apply in a scratch worktree of /repo HEAD", "go build ./... && go vet ./...", "go test -vet=off -count=1 ./... (existing suite, with the change)", demo_cmd + " (with the change, then with the change reverted)", "git -C /repo apply patch.diff; bin/mocverif -property all; git -C /repo checkout -- ."]})
+             "what_was_run": ["git apply --check + git apply in a scratch worktree of /repo HEAD", "go build ./... && go vet ./...", "go test -vet=off -count=1 ./... (existing suite, with the change)", demo_cmd + " (with the change, then with the change reverted)", "patch applied to a scratch copy of /repo; bin/mocverif -repo <copy> -property all"]})
 json.dump(meta, open(dst + "/meta.json", "w"), indent=1)
 ok = res.get("patch_applies") and res.get("compiles_and_vets") and res.get("existing_tests_pass_with_change") and res.get("demo_fails_with_change") and res.get("demo_passes_without_change")
 print(name, "CONFIRMED" if ok else "NOT-CONFIRMED", "| detected on", prop, ":", res["checker_detects_on_target_property"], "| failing:", res["checker_properties_failing"])
